@@ -76,10 +76,12 @@ TEMPLATES = {
                   lambda c, kw: _wrap_change(tmpl.twocentre(c, kw["lig"], P3[kw["par"]], P3[kw["par2"]]), kw["chg"])),
     "ring4": ({"par": (0, 2), "par2": (0, 2), "explicit": "bool", "chg": (0, 4)}, [],
               lambda c, kw: _wrap_change(tmpl.ring4(c, P3[kw["par"]], P3[kw["par2"]], kw["explicit"]), kw["chg"])),
+    "annulene": ({"n2": (2, 4), "lig": (0, 4), "par": (0, 2)}, [],
+                 lambda c, kw: tmpl.annulene(c, 2 * kw["n2"], kw["lig"], kw["par"])),
     "sn2": ({"variant": (0, 2), "par": (0, 2), "par2": (0, 2), "fl": (0, 3)}, [],
             lambda c, kw: tmpl.sn2(kw["variant"], P3[kw["par"]], P3[kw["par2"]], [0, 1, -1][kw["fl"]])),
 }
-TEMPLATE_CLASSES = {"sn2": ["SCRG"]}
+TEMPLATE_CLASSES = {"sn2": ["SCRG"], "annulene": ["SMG"]}
 
 
 def template_units(names, classes=("SMG", "SCRG")):
